@@ -5,7 +5,7 @@
 (* (initial declaration, history).  For every pair of versions, every value *)
 (* and every embedding the mechanism must produce the documented outcome.   *)
 (***************************************************************************)
-EXTENDS Adt, Json
+EXTENDS AdtMech, Json
 CONSTANTS MaxSteps,      \* history length bound
           Rich,          \* FALSE: fields are u8 / Option<u8>; TRUE: also String and a nested record
           Embs,          \* embeddings to check
@@ -83,6 +83,19 @@ EvolvedPrefixRejected ==
   \A p \in Pairs : \A v \in StructVals(Ver(D0, H, p[1])) :
     LET DW == Ver(D0, H, p[1]) DR == Ver(D0, H, p[2]) e == Encode(DW, v) IN
     (Len(DW.steps) > 0 /\ ~Skip(p[1], p[2], "Top")) => \A k \in 0..(Len(e.b) - 1) : ~Decode(DR, SubSeq(e.b, 1, k)).ok
+
+\* the decision table of AdtMech.tla (what Trace_Adt validates the implementation's recorded decisions
+\* against) refines the documented outcome: the decision taken for a field fixes the class of its outcome,
+\* and the decisions stop early exactly when the documented outcome is an error
+KindsMeanOutcome ==
+  NoLastRule \/
+  \A p \in Pairs : \A v \in StructVals(Ver(D0, H, p[1])) :
+    LET DW == Ver(D0, H, p[1]) DR == Ver(D0, H, p[2])
+        ks == Kinds(DW, DR)
+        ser == Written(DR.fields) IN
+    /\ Len(ks) <= Len(ser)
+    /\ \A j \in 1..Len(ks) : KindAllows(ks[j], OutcomeClass(D0, H, p[1], p[2], v, ser[j]))
+    /\ (Len(ks) < Len(ser) => ~Expected(D0, H, p[1], p[2], v).ok)
 
 -----------------------------------------------------------------------------
 (* Emission: per state the cases whose newest version is the last one.      *)
